@@ -80,6 +80,7 @@ def run(ctx):
     rng = ctx.rng
     ins = [c['input'] for c in streams.corpus('C04')]
     ins += [gen.mixed(rng) for _ in range(ctx.n(3000, 60000))]
+    ins += [gen.gsplit(rng) for _ in range(ctx.n(4000, 150000))]
     g = grammar.Gen(rng)
     for _ in range(ctx.n(300, 6000)):
         stmts = [g.stmt() for _ in range(rng.randint(1, 4))]
@@ -88,7 +89,12 @@ def run(ctx):
         oracle(ctx, s)
     ctx.samples += [short(s, 80) for s in ins[-2:]]
     if ctx.model.available:
-        streams.s_split(ctx, ins[: ctx.n(3000, 30000)])
+        streams.s_split(ctx, ins[: ctx.n(7000, 120000)])
+        ex = list(gen.gsplit_exhaustive(3))
+        for alpha, n in gen.SPLIT_ALPHABETS:
+            ex += list(gen.gsplit_exhaustive(n if ctx.quick() else n + 1, alpha))
+        streams.s_split(ctx, ex)
+        ctx.streams['S-SPLIT']['bounded_exhaustive'] = 'all sequences over 16 splitter symbols up to length 3 and over three reduced alphabets up to length 5-6 (quick) / 6-7 (thorough): %d inputs' % len(ex)
         streams.s_csl(ctx)
     else:
         ctx.notes.append('model driver unavailable: correspondence streams skipped')
